@@ -514,6 +514,13 @@ def draw_frame(draw, g, fidx, rows=None):
     extra = draw_attrs(draw, 'frame', g, only=('description', 'encrypted') if not p.full_attrs else
                        ('description', 'encrypted', 'direction', 'spacing', 'index_min', 'index_max'))
     fop['attrs'].update(extra)
+    if indexed and p.full_attrs and p.units and draw(st.integers(0, 3)) == 0:
+        # units without a value on the index description: the value is derived from the data at write(), the units are
+        # the user's (and must not be replaced by those of the index channel)
+        for k in ('index_min', 'index_max', 'spacing'):
+            if k not in fop['attrs'] and draw(st.booleans()):
+                fop['attrs'][k] = {'u': draw(st.sampled_from(['ft', 'm', 's', 'in'])),
+                                   'r': draw(st.sampled_from(['dict', 'setup', 'later']))}
     return g.add(fop)
 
 
